@@ -376,6 +376,10 @@ def _run_git(case, obs):
             except exceptions.RallyError:
                 pass
             obs.cls("git:second-update")
+        if case.get("detached"):
+            # an earlier run pinned the working copy to a commit (--track-revision, a worker's revision sync, the v-tag fallback): HEAD is detached
+            _git("-C", repo_dir, "checkout", "-q", "--detach")
+            obs.cls("git:detached-head")
         head_before = _git("-C", repo_dir, "rev-parse", "--abbrev-ref", "HEAD")
         if case.get("dirty"):
             # an uncommitted edit of a file that differs on every branch: git refuses to switch branches
@@ -570,6 +574,7 @@ def _git_case(draw, known):
             if cand not in branches:
                 case["local_only"] = [cand]
     case["dirty"] = draw(st.sampled_from([False, False, False, True]))
+    case["detached"] = draw(st.sampled_from([False, False, True]))
     if vp and draw(st.integers(0, 2)) == 0:
         # the checked update follows an earlier one for a nearby version
         near = [f"{vp[0]}.{vp[1] + 1}.0", f"{vp[0]}.{max(vp[1] - 1, 0)}.{vp[2]}", f"{vp[0] + 1}.0.0", f"{max(vp[0] - 1, 0)}.17.3", f"1.7.3", f"{vp[0]}.{vp[0]}.1"]
